@@ -319,6 +319,41 @@ func checkC04(c *Ctx) {
 
 	sites := providerCalls(c)
 	c.RequireCount("C04 provider call sites", len(sites), 2)
+	// C04.req: the functions that ask the provider read the state for the request
+	// they were given: every RegMap.Load / MemMap.Load / MemMap.Missing in them is
+	// handed the function's own parameters (not a variable a loop may have changed)
+	c.Rule("C04.req", "the functions that ask the state provider read and re-read the state for the request they were given: RegMap.Load, MemMap.Load and MemMap.Missing in them receive the function's own key / address / width parameters unchanged")
+	{
+		seenFn := map[*ssa.Function]bool{}
+		nReq := 0
+		for _, cs := range sites {
+			fn := cs.Fn
+			if seenFn[fn] {
+				continue
+			}
+			seenFn[fn] = true
+			ord := map[string]int{}
+			for _, rd := range Calls(fn) {
+				f := Callee(rd.Common())
+				if !(FuncNameIs(f, "(*"+pkgState+".RegMap).Load") || FuncNameIs(f, "("+pkgMemory+".MemMap).Load") || FuncNameIs(f, "("+pkgMemory+".MemMap).Missing")) {
+					continue
+				}
+				nReq++
+				ord[NameOf(f)]++
+				bad := ""
+				for i, a := range rd.Common().Args {
+					if i == 0 {
+						continue // the map itself
+					}
+					if p, ok := Unwrap(a).(*ssa.Parameter); !ok || p.Parent() != fn {
+						bad = fmt.Sprintf("argument %d is not the function's own parameter", i)
+					}
+				}
+				c.Oblige("C04.req", fmt.Sprintf("%s/%s#%d", ShortName(fn), NameOf(f), ord[NameOf(f)]), c.Prog.Pos(rd.Pos()), bad == "", "the state is read for something else than the request ("+bad+"): the value handed back, or the set of missing bytes, is that of another key, address or width")
+			}
+		}
+		c.RequireCount("C04.req state reads in the provider-calling functions", nReq, 4)
+	}
 	for _, cs := range sites {
 		fn := cs.Fn
 		m := cs.Common().Method.Name()
